@@ -12,6 +12,16 @@ def run(tier):
     if tier == "thorough":
         pvs += ["seed:%d" % vlib.seed(), "huge"]
     scanlib.run_scan(res, vw, jobs, pvs, {"C07"})
+    # the dynamic-rules checker: the repository's own rule source loaded as a *user* rule file
+    # (report positions incl. .At(...), quick-fix ranges and messages take the ruleguard_checker.go path)
+    import json
+    import os
+    with open(os.path.join(ws, "go.mod"), "a") as f:
+        f.write("\nrequire github.com/quasilyte/go-ruleguard/dsl v0.3.22\n")
+    pvf = os.path.join(ws, "pv_dyn.json")
+    json.dump({"dyn": {"ruleguard": {"rules": os.path.join(vlib.REPO, "checkers/rules/rules.go")}}}, open(pvf, "w"))
+    gjobs = [j for j in jobs if j[2] == "G"]
+    scanlib.run_scan(res, vw, [(ws, gjobs[0][1], "G-dyn")], ["dyn"], {"C07"}, extra_args=["-pvfile", pvf, "-only", "ruleguard"], cwd=ws)
     infos = _infos(vw)
     fired = res.sets.get("checkers_fired", set())
     silent = sorted(i["name"] for i in infos if i["name"] not in fired)
